@@ -84,6 +84,10 @@ def gen_case(sd, idx):
             "state": None, "chemostats": None, "h": h}
     n = gen.ncells(space) * len(net["species"])
     desc["state"] = [0.0 if r.random() < 0.2 else float(r.randint(1, 60)) for _ in range(n)]
+    if r.random() < 0.15:
+        # macroscopic counts (beyond 2^24 and 2^31): molecule counts are still exact integers in doubles
+        big = r.choice([3e5, 1e6, 5e7])
+        desc["state"] = [float(int(x * big)) for x in desc["state"]]
     if r.random() < 0.25:
         desc["chemostats"] = gen.default_chemostats(desc)
         # add a flag on one entry of one species (then that species is excluded from the laws)
